@@ -78,6 +78,8 @@ type Profile struct {
 	// NoBadTargets: symbolic link targets a kernel cannot send (NUL
 	// bytes) are not generated.
 	NoBadTargets bool
+	// DirSetAttr adds VirtualSetAttributes on directories.
+	DirSetAttr bool
 	// UniqueTargets gives every symbolic link its own target. Needed
 	// where equal targets mean equal inode numbers but distinct objects
 	// (FUSE handle allocator seen through node IDs).
@@ -274,6 +276,12 @@ func (g *Gen) Next() Op {
 	if g.P.Extra {
 		table = append(table, weighted{4, g.genExtra})
 	}
+	if g.P.DirSetAttr {
+		table = append(table, weighted{2, func() (Op, bool) {
+			d := g.pickDir()
+			return Op{K: "VirtualSetAttributes", D: d.ID, Kind: Kind(g.R.IntN(5))}, true
+		}})
+	}
 	total := 0
 	for _, t := range table {
 		total += t.w
@@ -337,6 +345,10 @@ func (g *Gen) genMknod() (Op, bool) {
 }
 
 func (g *Gen) genLink() (Op, bool) {
+	if g.chance(0.04) && !g.P.KernelOnly {
+		d := g.pickDir()
+		return Op{K: "VirtualLinkForeign", D: d.ID, N: g.pickName(d, 0.3)}, true
+	}
 	live, stale := g.boundLeaves()
 	if len(live)+len(stale) == 0 {
 		return Op{}, false
@@ -480,6 +492,10 @@ func (g *Gen) genReadDir() (Op, bool) {
 // genRename picks one of the cases of the rename case analysis and looks for
 // operands that produce it; if none exist it falls back to random operands.
 func (g *Gen) genRename() (Op, bool) {
+	if g.chance(0.02) && !g.P.KernelOnly {
+		d := g.pickDir()
+		return Op{K: "VirtualRenameForeign", D: d.ID, N: g.pickName(d, 0.8), N2: g.freshName()}, true
+	}
 	live, dead := g.boundDirs()
 	pick := func(ds []*Node) *Node { return ds[g.R.IntN(len(ds))] }
 	type cand struct {
@@ -598,7 +614,7 @@ func (g *Gen) genLeafIO() (Op, bool) {
 	}
 	if len(stale) > 0 && (len(live) == 0 || g.chance(0.25)) {
 		l := stale[g.R.IntN(len(stale))]
-		return Op{K: []string{"LeafOpenSelf", "LeafGetAttributes", "LeafUpload", "LeafOpenReadFrozen", "LeafPersistency"}[g.R.IntN(5)], L: l.ID}, true
+		return Op{K: []string{"LeafOpenSelf", "LeafGetAttributes", "LeafUpload", "LeafOpenReadFrozen", "LeafPersistency", "LeafSetAttributes"}[g.R.IntN(6)], L: l.ID, Trunc: g.chance(0.5), Salt: g.R.Uint64()}, true
 	}
 	l := live[g.R.IntN(len(live))]
 	ks := []string{"LeafOpenSelf", "LeafGetAttributes", "LeafSetAttributes", "LeafIO", "LeafIO", "LeafUpload", "LeafOpenReadFrozen", "LeafPersistency"}
@@ -607,5 +623,5 @@ func (g *Gen) genLeafIO() (Op, bool) {
 
 func (g *Gen) genExtra() (Op, bool) {
 	d := g.pickDir()
-	return Op{K: []string{"InstallHooks", "VirtualApply", "VirtualSetAttributes"}[g.R.IntN(3)], D: d.ID, Kind: Kind(g.R.IntN(3))}, true
+	return Op{K: []string{"InstallHooks", "VirtualApply", "VirtualSetAttributes"}[g.R.IntN(3)], D: d.ID, Kind: Kind(g.R.IntN(5))}, true
 }
